@@ -9,7 +9,7 @@ from . import C10
 ID = 'C17'
 RULE = ('cases = (generated HTML or CSS document, position); same generators as C09/C10 extended with class attributes (blank runs, empty), '
         'expression values and declarations ended by the end of the body; every position 0..len; get_open_tag, select_item_html next+previous, '
-        'get_css_section with properties, select_item_css next+previous. Non-trivial = the helper returned a model; distinct by (helper, document, position)')
+        'get_css_section with properties, select_item_css next+previous. Non-trivial = at least one helper returned a model at that position; distinct by (document, position)')
 ASSUMPTIONS = ['generator bookkeeping self-checked; value tokens are the generator\'s own tokens minus the operators + / * , and " - "',
                'get_open_tag may return a close-tag context (type 2) for a position inside a close tag: it is never an open/self-closing tag there',
                'get_css_section boundary positions relaxed as in C09 (a rule touching the position with no recorded rule strictly containing it below)',
@@ -79,7 +79,7 @@ def check_html(src, recs, ctx, au, positions=None):
                     aa = [(a.name, a.name_start, a.name_end, a.value, a.value_start, a.value_end) for a in (t.attributes or [])]
                     if (t.name, t.type, t.start, t.end) != (e['name'], etype, e['open'][0], e['open'][1]) or aa != ea:
                         ctx.violation('open-tag-mismatch', case, {'expected': [e['name'], etype, e['open'], ea], 'actual': [t.name, t.type, t.start, t.end, aa]})
-                    ctx.seen(('got', src, pos))
+                    ctx.seen(('h', src, pos))
                     ctx.state('open-tag', '%s attrs=%d' % ('selfclose' if e['selfclosed'] else 'open', min(len(ea), 3)))
             elif t is not None and t.type != 2:
                 ctx.violation('open-tag-unexpected', case, {'actual': [t.name, t.type, t.start, t.end]})
@@ -101,7 +101,7 @@ def check_html(src, recs, ctx, au, positions=None):
             if a != e:
                 ctx.violation('select-html-mismatch', dict(case, prev=is_prev), {'expected': e, 'actual': a})
             elif a is not None:
-                ctx.seen(('sel', src, pos, is_prev))
+                ctx.seen(('h', src, pos))
                 ctx.state('select-html', 'ranges=%d' % min(len(a[2]), 8))
                 if len(ctx.samples) < 1 and len(a[2]) >= 5:
                     ctx.sample({'document': src[:200], 'pos': pos, 'previous': is_prev, 'model': {'start': a[0], 'end': a[1], 'ranges': a[2]}})
@@ -167,7 +167,7 @@ def check_css(src, recs, ctx, au, positions=None):
                     if any(q is not rr and q['start'] < pos < q['end'] and rr['start'] <= q['start'] and q['end'] <= rr['end'] for q in rules):
                         ctx.violation('section-not-innermost', case, {'actual': [s.start, s.end]})
                     else:
-                        ctx.seen(('sect', src, pos))
+                        ctx.seen(('c', src, pos))
                         ctx.mon('oracle:css-properties')
                         decls = [d for d in rr['items'] if d['type'] == 'decl']
                         props = s.properties or []
@@ -221,7 +221,7 @@ def check_css(src, recs, ctx, au, positions=None):
             if a != e:
                 ctx.violation('select-css-mismatch', dict(case, prev=is_prev), {'expected': e, 'actual': a})
             elif a is not None:
-                ctx.seen(('csel', src, pos, is_prev))
+                ctx.seen(('c', src, pos))
                 ctx.state('select-css', 'ranges=%d' % min(len(a[2]), 6))
                 if len(ctx.samples) < 2 and len(a[2]) >= 4:
                     ctx.sample({'stylesheet': src[:200], 'pos': pos, 'previous': is_prev, 'model': {'start': a[0], 'end': a[1], 'ranges': a[2]}})
